@@ -5,14 +5,13 @@
     ensures
         // C06: one operation for each PUBLISHED endpoint whose range contains `version`, and nothing else (which
         // endpoints the listing holds: listing_is_exact / one_operation_per_method)
-        doc_ops::<Context>(r) == visible_only(dfs(*self.router.root, Some(version))),   // @one_operation_per_visible_listed_endpoint_and_nothing_else
+        doc_ops::<Context>(r) == doc_of(dfs(*self.router.root, Seq::<PathSegment>::empty(), Some(version))),   // @one_operation_per_visible_listed_endpoint_and_nothing_else
 //@ loop 0 invariant
             invariant iter_wf(listing),
-                doc_ops::<Context>(openapi) + visible_only(rest(listing)) == visible_only(dfs(*self.router.root, Some(version))),   // @emitted_so_far_plus_what_is_ahead_is_the_visible_listing
-            ensures doc_ops::<Context>(openapi) =~= visible_only(dfs(*self.router.root, Some(version))),
+                doc_ops::<Context>(openapi) + doc_of(rest(listing)) == doc_of(dfs(*self.router.root, Seq::<PathSegment>::empty(), Some(version))),   // @emitted_so_far_plus_what_is_ahead_is_the_visible_listing
+            ensures doc_ops::<Context>(openapi) =~= doc_of(dfs(*self.router.root, Seq::<PathSegment>::empty(), Some(version))),
 //@ loop 0 body_start
             proof {
                 // the item just taken was the head of what was ahead
-                visible_only_step((method, *endpoint), rest(listing));
-                assert(Seq::<Listed<Context>>::empty() + visible_only(rest(listing)) =~= visible_only(rest(listing)));
+                assert(Seq::<Op<Context>>::empty() + doc_of(rest(listing)) =~= doc_of(rest(listing)));
             }
